@@ -343,7 +343,7 @@ class LiteralMethod(DeserializationMethod):
             for cls in self.types:
                 try:
                     return self.value_map[self.coercer(cls, data)]
-                except KeyError:
+                except (KeyError, TypeError):  # TypeError: unhashable coerced value
                     pass
         raise ValidationError(format_error(self.error, data))
 
